@@ -125,6 +125,16 @@ def same_block(x, y):
     return close(x[1], y[1]) and x[2] == y[2] and bool(x[3]) == bool(y[3])
 
 
+def assign(b, union):
+    """Index of the model block that b realises: the nearest one within the tolerance (exact matches win), else None."""
+    cand = [i for i, u in enumerate(union) if same_block(b, u)]
+    if not cand:
+        return None
+    if b[0] == "seg":
+        return min(cand, key=lambda i: abs(union[i][1] - b[1]) + abs(union[i][2] - b[2]))
+    return min(cand, key=lambda i: abs(union[i][1] - b[1]))
+
+
 def read_parts(root):
     """[(block, operator, error)] from the extracted archive, pairing YAML headers and lz4 arrays by file stem."""
     import lz4.frame
@@ -171,7 +181,7 @@ def check_case(case):
     union = []
     for t in targets:
         for b in paths[t]:
-            if not any(same_block(b, u) for u in union):
+            if b not in union:  # exact: targets one ulp apart are different targets (and different parts)
                 union.append(b)
     nblocks = max(len(p) for p in paths.values())
     shared = sum(len(p) for p in paths.values()) > len(union)
@@ -217,27 +227,31 @@ def check_case(case):
         if problem:
             res.fail(f"{ID}/archive/array-files", problem)
     stored_ok = [(b, o, e) for b, o, e, p in stored if not p]
-    for u in union:
-        n = sum(1 for b, _, _ in stored_ok if same_block(b, u))
+    where = [assign(b, union) for b, _, _ in stored_ok]
+    for i, u in enumerate(union):
+        n = where.count(i)
         if n != 1:
             res.fail(f"{ID}/parts/{'missing' if n == 0 else 'duplicate'}/{u[0]}", f"expected part {u} stored {n} times; stored: {[b for b, _, _ in stored_ok]}")
-    for b, _, _ in stored_ok:
-        if not any(same_block(b, u) for u in union):
+    for (b, _, _), i in zip(stored_ok, where):
+        if i is None:
             res.fail(f"{ID}/parts/unexpected/{b[0]}", f"stored part {b} is on no target's path; expected union {union}")
     for kind, lst in calls.items():
-        for u in [u for u in union if u[0] == ("seg" if kind == "evolve" else "match")]:
-            n = sum(1 for b in lst if same_block(b, u))
+        cw = [assign(b, union) for b in lst]
+        for i, u in enumerate(union):
+            if u[0] != ("seg" if kind == "evolve" else "match"):
+                continue
+            n = cw.count(i)
             if n != 1:
                 res.fail(f"{ID}/computed/{n}-times/{kind}", f"part {u} computed {n} times (calls: {lst})")
-        for b in lst:
-            if not any(same_block(b, u) for u in union):
+        for b, i in zip(lst, cw):
+            if i is None:
                 res.fail(f"{ID}/computed/unexpected/{kind}", f"computed {b}, which is on no path")
 
     # (b) each stored operator is the ordered product of its path's parts
     noncomm = False
     for t in targets:
         key = None
-        for k in ops:
+        for k in sorted(ops, key=lambda k: abs(k[0] - t[0]), reverse=True):  # the nearest one wins
             if k[1] == t[1] and close(k[0], t[0]):
                 key = k
         if key is None:
@@ -245,7 +259,7 @@ def check_case(case):
             continue
         chain = []
         for b in paths[t]:
-            hit = [(o, e) for bb, o, e in stored_ok if same_block(bb, b)]
+            hit = [(o, e) for (bb, o, e), i in zip(stored_ok, where) if i == union.index(b)]
             if len(hit) != 1:
                 chain = None
                 break
